@@ -211,26 +211,22 @@ Definition g1_goal_unbuildable (d : xdoc) : bool :=
       existsb (fun o => match o with OObj t a => Nat.eqb t 12 && (a <=? 0) | OMulti st ins => g1_multi_bad st ins end) objs
       || (negb (nonempty (listed_types objs)) && negb (some_break d))
   end.
-(* G2: required breaks of one shift (of a vehicle type that has a vehicle) that mix exact and offset times, or whose
-   [earliest, latest] spans - without the duration E1303 adds - intersect (reported as E0002 "check fleet definition") *)
-Definition req_kind_span (b : brk) : list (bool * (Z * Z)) :=
-  match b with
-  | BReqOff e l _ => [(true, (e, l))]
-  | BReqExact e l _ => match tm_val e, tm_val l with Some a, Some b => [(false, (a, b))] | _, _ => [] end
-  | _ => []
-  end.
-Definition g2_shift (s : shift) : bool :=
-  let spans := flat_map req_kind_span (match sh_breaks s with Some bs => bs | None => [] end) in
-  existsb (fun a => existsb (fun b => negb (Bool.eqb (fst a) (fst b))) spans) spans
-  || negb (pairwise (fun a b => negb (overlap a b)) (map snd spans)).
-Definition g2_required_breaks (d : xdoc) : bool :=
-  existsb (fun v => nonempty (v_ids v) && existsb g2_shift (v_shifts v)) (xvehicles d).
+(* G2 (Spec/Rules.v :: g2_required_breaks_of on the base document): required breaks of one shift of both kinds, or with
+   intersecting spans (reported as E0002 "check fleet definition") *)
+Definition g2_required_breaks (d : xdoc) : bool := g2_required_breaks_of (xbase d).
 
 Definition xknown_table : list (Z * (xdoc -> bool)) :=
   [(6, on_base k6_capacity_empty); (7, xk7_over8); (8, on_base k8_empty_demand_vectors); (9, on_base k9_no_vehicles);
    (11, x11_special_without_job); (14, x14_speed_not_positive); (16, x16_recharge_times);
    (21, g1_goal_unbuildable); (22, g2_required_breaks)].
 Definition xknown (d : xdoc) : bool := existsb (fun kf => snd kf d) xknown_table.
+
+(* ---------- a base document inside the extended type: no relations, objectives, clustering, supplied matrices or index locations,
+   and a location list that is empty exactly when the base document has no location ---------- *)
+Definition is_base_document (d : xdoc) : bool :=
+  is_none (x_relations d) && is_none (x_objectives d) && is_none (x_clustering d) && is_none (x_matrices d)
+  && negb (existsb is_index (x_locs d)) && Bool.eqb (nonempty (x_locs d)) (has_location (xbase d)).
+
 
 (* ---------- entry points for the correspondence ---------- *)
 Definition run_xspec (d : xdoc) : list Z := map fst (filter (fun cf => snd cf d) xspec_table).
